@@ -14,11 +14,13 @@ static int payload[3];          /* plain data written by the once function, read
 static int idx_of[3] = { 0, 64, 1 };
 
 static void body (int k) {
+	vrt_note ("f-begin %d %d", vrt_self (), idx_of[k]);   /* for the lock-step replay: thread, index of the once word */
 	if (vrt_sh_add (RUNS (k), 1) != 1) vrt_fail ("C07", "once function of object %d ran a second time", k);
 	payload[k] = 41;
 	vrt_point ("inside-once-fn");
 	payload[k]++;
 	vrt_sh_set (DONE (k), 1);
+	vrt_note ("f-end %d %d", vrt_self (), idx_of[k]);
 }
 static void f0 (void) { body (0); }
 static void f1 (void) { body (1); }
